@@ -4,8 +4,11 @@ import Zstd.Proofs.FrameDecoderTwin
 C01 + C06 together: a decoder that is drained in ANY way keeps following the Spec's run on a frame
 the Spec accepts — block by block, for every strategy and every drain schedule.
 -/
+set_option linter.unusedSectionVars false
 namespace Zstd.Model
 open Zstd
+
+variable {σ : Type} [BlockDec σ] [BlockContract σ] [RefinesSpec σ]
 
 /-- one block of the Spec's `decodeBlocks`: (output, entropy, bytes consumed, last?) -/
 def specBlockStep (window : Nat) (dict : Array Nat) (bytes : List Nat) (e : Spec.Entropy) (out : Array Nat) :
@@ -72,7 +75,7 @@ theorem specDecodeBlocks_succ (window : Nat) (dict : Array Nat) (fuel : Nat) (by
 
 
 /-- what one successful block step leaves behind (relative to the state before) -/
-structure BlockRefines (st st1 : FState) (e1 : Spec.Entropy) (out1 : Array Nat) (n : Nat) : Prop where
+structure BlockRefines (st st1 : FState σ) (e1 : Spec.Entropy) (out1 : Array Nat) (n : Nat) : Prop where
   spec : SpecState st1 e1 out1
   bytesRead : st1.bytesRead = st.bytesRead + n
   header : st1.header = st.header
@@ -83,7 +86,7 @@ structure BlockRefines (st st1 : FState) (e1 : Spec.Entropy) (out1 : Array Nat) 
   dict : st1.buf.dict = st.buf.dict
 
 /-- `decodeOneBlock` follows the Spec's block step (raw, RLE, compressed) -/
-theorem decodeOneBlock_refines (bytes : List Nat) (hb : ∀ x ∈ bytes, x < 256) (e : Spec.Entropy) (st : FState)
+theorem decodeOneBlock_refines (bytes : List Nat) (hb : ∀ x ∈ bytes, x < 256) (e : Spec.Entropy) (st : FState σ)
     (out1 : Array Nat) (e1 : Spec.Entropy) (n : Nat) (last : Bool)
     (hst : SpecState st e st.buf.content)
     (hs : specBlockStep st.buf.window st.buf.dict bytes e st.buf.content = some (out1, e1, n, last)) :
@@ -169,10 +172,11 @@ theorem decodeOneBlock_refines (bytes : List Nat) (hb : ∀ x ∈ bytes, x < 256
               have hblk := hone ⟨ht3, hsz1⟩
               simp only [ht1, if_false] at hblk
               rw [if_neg (by simp only [List.length_cons]; omega)] at hblk
-              obtain ⟨b', hdb, hrb⟩ := decompressBlock_refines (body.take H.size) e e1' st.buf o1 hst.totalOut hcb
-              simp only [blockBody, ht0, ht1, if_false, hst.entropy, hdb, Out.mapOk] at hblk
+              obtain ⟨b', s', hdb, hrb, hcp⟩ := RefinesSpec.refines (body.take H.size) st.entropy e e1' st.buf o1
+                (fun x hx => hb x (by simp [List.mem_of_mem_take hx])) hst.entropy hst.totalOut hcb
+              simp only [blockBody, ht0, ht1, if_false, hdb, Out.mapOk] at hblk
               exact ⟨_, _, hblk, rfl, by omega, by simp only [List.length_cons]; omega,
-                ⟨⟨hrb.content, rfl, hrb.totalOut⟩, by simp; omega, rfl, rfl, rfl, hrb.hashed, hrb.window, hrb.dict⟩⟩
+                ⟨⟨hrb.content, hcp, hrb.totalOut⟩, by simp; omega, rfl, rfl, rfl, hrb.hashed, hrb.window, hrb.dict⟩⟩
 
 
 /-- once the output exceeds the window, every offset the Spec accepts is at most the window -/
@@ -266,9 +270,9 @@ theorem blockOffsets_le (window : Nat) (dict : Array Nat) (bytes : List Nat) (e 
                 (decodeSequences_ov _ _ _ _ hseq) hexec hbig
 
 
-theorem nextBlockOffsets_le (bytes : List Nat) (hb : ∀ x ∈ bytes, x < 256) (e : Spec.Entropy) (st : FState)
+theorem nextBlockOffsets_le (bytes : List Nat) (hb : ∀ x ∈ bytes, x < 256) (e : Spec.Entropy) (st : FState σ)
     (window : Nat) (dict : Array Nat) (out out1 : Array Nat) (e1 : Spec.Entropy) (n : Nat) (last : Bool)
-    (hent : st.entropy = e)
+    (hent : RefinesSpec.coupled st.entropy e)
     (hs : specBlockStep window dict bytes e out = some (out1, e1, n, last)) (hbig : window < out.size) :
     ∀ o ∈ nextBlockOffsets st bytes, o ≤ window := by
   match bytes, hb, hs with
@@ -318,20 +322,20 @@ theorem nextBlockOffsets_le (bytes : List Nat) (hb : ∀ x ∈ bytes, x < 256) (
             · split at hs
               · cases hs
               · rename_i o1 e1' hcb
-                rw [hent]
-                exact blockOffsets_le window dict _ e e1' out o1 hcb hbig
+                exact RefinesSpec.offsets_le window dict _ st.entropy e e1' out o1
+                  (fun x hx => hb x (by simp [List.mem_of_mem_take hx])) hent hcb hbig
 
 /-- the invariant of a decoder (drained in any way) that is following a Spec run: `out` is everything
 the frame has produced so far -/
-structure Follows (st : FState) (e : Spec.Entropy) (out : Array Nat) : Prop where
-  entropy : st.entropy = e
+structure Follows (st : FState σ) (e : Spec.Entropy) (out : Array Nat) : Prop where
+  entropy : RefinesSpec.coupled st.entropy e
   stream : st.buf.hashed ++ st.buf.content = out
   totalOut : st.buf.totalOut ≤ out.size
   retains : st.buf.hashed = #[] ∨ (st.buf.window ≤ st.buf.content.size ∧ st.buf.window < out.size)
 
 
 /-- what one block does to a decoder that follows a Spec run: it keeps following it -/
-structure FollowStep (st st1 : FState) (n : Nat) : Prop where
+structure FollowStep (st st1 : FState σ) (n : Nat) : Prop where
   bytesRead : st1.bytesRead = st.bytesRead + n
   header : st1.header = st.header
   finished : st1.finished = st.finished
@@ -344,7 +348,7 @@ structure FollowStep (st st1 : FState) (n : Nat) : Prop where
 /-- `decodeOneBlock_follows`: on a decoder drained in ANY way that follows a Spec run (`Follows`), the
 next block the Spec accepts is decoded `Ok`, consumes the Spec's byte count, and the decoder still
 follows the Spec run: delivered ++ buffered = the Spec's output after that block -/
-theorem decodeOneBlock_follows (bytes : List Nat) (hb : ∀ x ∈ bytes, x < 256) (e : Spec.Entropy) (st : FState)
+theorem decodeOneBlock_follows (bytes : List Nat) (hb : ∀ x ∈ bytes, x < 256) (e : Spec.Entropy) (st : FState σ)
     (out out1 : Array Nat) (e1 : Spec.Entropy) (n : Nat) (last : Bool) (hf : Follows st e out)
     (hs : specBlockStep st.buf.window st.buf.dict bytes e out = some (out1, e1, n, last)) :
     ∃ st1 bh, decodeOneBlock st bytes = (st1, .ok (bh, bytes.drop n)) ∧ bh.last = last ∧ 3 ≤ n ∧ n ≤ bytes.length ∧
@@ -390,7 +394,7 @@ theorem decodeOneBlock_follows (bytes : List Nat) (hb : ∀ x ∈ bytes, x < 256
     · have hc : stF1.buf.content = st.buf.hashed ++ (decodeOneBlock st bytes).1.buf.content := by rw [htw1]; rfl
       have hsz := hy.size
       refine ⟨?_, ?_, ?_, Or.inr ⟨?_, ?_⟩⟩
-      · rw [← hbr.spec.entropy, htw1]; rfl
+      · have := hbr.spec.entropy; rw [htw1] at this; exact this
       · rw [hy.hashed, ← hc, hbr.spec.content]
       · have := hbr.spec.totalOut
         rw [htw1] at this
@@ -405,10 +409,10 @@ theorem decodeOneBlock_follows (bytes : List Nat) (hb : ∀ x ∈ bytes, x < 256
 
 
 
-theorem FollowStep.refl (st : FState) : FollowStep st st 0 :=
+theorem FollowStep.refl (st : FState σ) : FollowStep st st 0 :=
   ⟨rfl, rfl, rfl, rfl, rfl, rfl, rfl, Nat.le_refl _⟩
 
-theorem FollowStep.trans {a b c : FState} {n m : Nat} (h1 : FollowStep a b n) (h2 : FollowStep b c m) :
+theorem FollowStep.trans {a b c : FState σ} {n m : Nat} (h1 : FollowStep a b n) (h2 : FollowStep b c m) :
     FollowStep a c (n + m) :=
   ⟨by rw [h2.bytesRead, h1.bytesRead]; omega, h2.header.trans h1.header, h2.finished.trans h1.finished,
    h2.checksum.trans h1.checksum, h2.hashed.trans h1.hashed, h2.window.trans h1.window, h2.dict.trans h1.dict,
@@ -418,7 +422,7 @@ theorem FollowStep.trans {a b c : FState} {n m : Nat} (h1 : FollowStep a b n) (h
 boundary still following the same Spec run (strategy budget reached), or it completes the frame with
 delivered ++ buffered = the Spec's output -/
 theorem decodeBlocksLoop_follows (strat : Strategy) (a c : Nat) (fuelS fuel : Nat) (bytes : List Nat)
-    (hb : ∀ x ∈ bytes, x < 256) (e : Spec.Entropy) (st : FState) (out out' : Array Nat) (consumed consumed' : Nat)
+    (hb : ∀ x ∈ bytes, x < 256) (e : Spec.Entropy) (st : FState σ) (out out' : Array Nat) (consumed consumed' : Nat)
     (hfuel : bytes.length < fuel) (hf : Follows st e out)
     (hs : Spec.decodeBlocks st.buf.window st.buf.dict fuelS bytes e out consumed = some (out', consumed')) :
     (∃ st1 n e1 out1 fuelS1, n ≤ bytes.length ∧
@@ -475,7 +479,7 @@ theorem decodeBlocksLoop_follows (strat : Strategy) (a c : Nat) (fuelS fuel : Na
 /-- The invariant of a decoder working through a frame the Spec accepts (`out'` = the frame's content,
 `sEnd` = the source behind the frame, `cons` = the frame's length, `cks` = its stored checksum):
 either it is still following the Spec's block run, or the frame's blocks are all in. -/
-def FrameInv (out' : Array Nat) (sEnd : Src) (cons : Nat) (cks : Option Nat) (d : Decoder) (s : Src) : Prop :=
+def FrameInv (out' : Array Nat) (sEnd : Src) (cons : Nat) (cks : Option Nat) (d : Decoder σ) (s : Src) : Prop :=
   ∃ st, d.state = some st ∧
     ((st.finished = false ∧ st.checksum = none ∧ (∀ x ∈ s, x < 256) ∧
       ∃ e out fuelS consumed n, Follows st e out ∧
@@ -487,7 +491,7 @@ def FrameInv (out' : Array Nat) (sEnd : Src) (cons : Nat) (cks : Option Nat) (d 
      ∨ (st.finished = true ∧ st.buf.hashed ++ st.buf.content = out' ∧ s = sEnd ∧ st.bytesRead = cons ∧
         st.checksum = cks ∧ d.isFinished = true))
 
-theorem Follows.take {st : FState} {e : Spec.Entropy} {out : Array Nat} (h : Follows st e out) (k : Nat)
+theorem Follows.take {st : FState σ} {e : Spec.Entropy} {out : Array Nat} (h : Follows st e out) (k : Nat)
     (hk : k = 0 ∨ (st.buf.window ≤ st.buf.content.size - k ∧ k ≤ st.buf.content.size)) :
     Follows { st with buf := (st.buf.take k).2 } e out := by
   refine ⟨h.entropy, ?_, h.totalOut, ?_⟩
@@ -505,7 +509,7 @@ theorem Follows.take {st : FState} {e : Spec.Entropy} {out : Array Nat} (h : Fol
         omega
 
 /-- drains keep the frame invariant -/
-theorem FrameInv.drain {out' : Array Nat} {sEnd : Src} {cons : Nat} {cks : Option Nat} {d : Decoder} {s : Src}
+theorem FrameInv.drain {out' : Array Nat} {sEnd : Src} {cons : Nat} {cks : Option Nat} {d : Decoder σ} {s : Src}
     (h : FrameInv out' sEnd cons cks d s) (op : DrainOp) : FrameInv out' sEnd cons cks (applyDrain d op).1 s := by
   obtain ⟨st, hst, hcase⟩ := h
   rcases applyDrain_take d op with ⟨hn, -⟩ | ⟨st', k, hs', hk, he⟩
@@ -545,7 +549,7 @@ theorem specDecodeBlocks_consumed_ge (window : Nat) (dict : Array Nat) (fuel : N
 
 /-- `decode_blocks` with ANY strategy, called while the last block is not in, keeps the frame invariant
 and never fails -/
-theorem FrameInv.blocks {out' : Array Nat} {sEnd : Src} {cons : Nat} {cks : Option Nat} {d : Decoder} {s : Src}
+theorem FrameInv.blocks {out' : Array Nat} {sEnd : Src} {cons : Nat} {cks : Option Nat} {d : Decoder σ} {s : Src}
     (h : FrameInv out' sEnd cons cks d s) (hnd : d.blocksDone = false) (strat : Strategy) :
     ∃ d1 s1 fin, d.decodeBlocks s strat = (d1, .ok (s1, fin)) ∧ FrameInv out' sEnd cons cks d1 s1 := by
   obtain ⟨st, hst, hcase⟩ := h
@@ -597,7 +601,7 @@ theorem FrameInv.blocks {out' : Array Nat} {sEnd : Src} {cons : Nat} {cks : Opti
 
 
 /-- documented use: `decode_blocks` is only called while the frame's last block is not in -/
-def DocOk (d : Decoder) (s : Src) : List SOp → Prop
+def DocOk (d : Decoder σ) (s : Src) : List SOp → Prop
   | [] => True
   | .drain o :: ops => DocOk (applyDrain d o).1 s ops
   | .blocks strat :: ops =>
@@ -608,7 +612,7 @@ def DocOk (d : Decoder) (s : Src) : List SOp → Prop
 
 /-- every documented program on a frame the Spec accepts: no error, the invariant holds at the end, and
 the hasher has seen exactly the delivered bytes -/
-theorem runSched_frameInv {out' : Array Nat} {sEnd : Src} {cons : Nat} {cks : Option Nat} (d : Decoder) (s : Src)
+theorem runSched_frameInv {out' : Array Nat} {sEnd : Src} {cons : Nat} {cks : Option Nat} (d : Decoder σ) (s : Src)
     (ops : List SOp) (h : FrameInv out' sEnd cons cks d s) (hdoc : DocOk d s ops) :
     (runSched d s ops).2.2.2 = none ∧ FrameInv out' sEnd cons cks (runSched d s ops).1 (runSched d s ops).2.1 ∧
     (runSched d s ops).1.hashed = d.hashed ++ (runSched d s ops).2.2.1 := by
@@ -637,7 +641,7 @@ theorem runSched_frameInv {out' : Array Nat} {sEnd : Src} {cons : Nat} {cks : Op
       rw [this]
 
 /-- at any point of a frame the Spec accepts, delivered ++ buffered is a prefix of the frame's content -/
-theorem FrameInv.prefix {out' : Array Nat} {sEnd : Src} {cons : Nat} {cks : Option Nat} {d : Decoder} {s : Src}
+theorem FrameInv.prefix {out' : Array Nat} {sEnd : Src} {cons : Nat} {cks : Option Nat} {d : Decoder σ} {s : Src}
     (h : FrameInv out' sEnd cons cks d s) : ∃ st tail, d.state = some st ∧ out' = st.buf.hashed ++ st.buf.content ++ tail := by
   obtain ⟨st, hst, hcase⟩ := h
   rcases hcase with ⟨hnf, hcs, hb, e, out, fuelS, consumed, n, hf, hsp, hn, hc1, hc2⟩ | ⟨hfin, hstr, -⟩
@@ -660,13 +664,14 @@ theorem FrameInv.prefix {out' : Array Nat} {sEnd : Src} {cons : Nat} {cks : Opti
 
 
 /-- after `reset` on a frame the Spec accepts, the decoder satisfies the frame invariant -/
-theorem frameInv_of_decodeFrame (d : Decoder) (f : List Nat) (hb : ∀ x ∈ f, x < 256) (r : Spec.FrameResult)
-    (hs : Spec.decodeFrame f (d.dicts.map Dict.toSpec) = some r) (hlim : r.header.window ≤ d.maxWindow) :
+theorem frameInv_of_decodeFrame (d : Decoder σ) (sdicts : List Spec.Dict) (hdc : DictsCoupled d.dicts sdicts)
+    (f : List Nat) (hb : ∀ x ∈ f, x < 256) (r : Spec.FrameResult)
+    (hs : Spec.decodeFrame f sdicts = some r) (hlim : r.header.window ≤ d.maxWindow) :
     ∃ d0 rest, d.reset f = (d0, .ok rest) ∧ d0.hashed = #[] ∧
       FrameInv r.content.toArray (f.drop r.consumed) r.consumed r.checksum d0 rest := by
   obtain ⟨st0, e0, hdrLen, consumed, out, hres, h5, hhl, hf0, hc0, hbr0, hco0, hto0, hha0, hent, hblocks, hrc, hrk⟩ :=
-    decodeFrame_setup d f hb r hs hlim
-  obtain ⟨-, -, -, -, -, -, -, -, -, -, -, -, hrle⟩ := decodeFrame_refines d f hb r hs hlim
+    decodeFrame_setup d sdicts hdc f hb r hs hlim
+  obtain ⟨-, -, -, -, -, -, -, -, -, -, -, -, hrle⟩ := decodeFrame_refines d sdicts hdc f hb r hs hlim
   have hge := specDecodeBlocks_consumed_ge _ _ _ _ _ _ _ _ _ hblocks
   have hout : r.content.toArray = out := by rw [hrc]
   refine ⟨_, _, hres, by simp [Decoder.hashed, hha0], st0, rfl, Or.inl ⟨hf0, hc0,
@@ -694,8 +699,9 @@ duplicated or reordered) and are exactly what the hasher has seen; delivered ++ 
 prefix of the content; and once the last block is in: delivered ++ buffered IS the content, the
 decoder `is_finished()`, the source left is the input minus exactly the frame, `bytes_read_from_source`
 is the frame's length and the stored checksum is the frame's. -/
-theorem valid_frame_any_schedule (d : Decoder) (f : List Nat) (hb : ∀ x ∈ f, x < 256) (r : Spec.FrameResult)
-    (hs : Spec.decodeFrame f (d.dicts.map Dict.toSpec) = some r) (hlim : r.header.window ≤ d.maxWindow)
+theorem valid_frame_any_schedule (d : Decoder σ) (sdicts : List Spec.Dict) (hdc : DictsCoupled d.dicts sdicts)
+    (f : List Nat) (hb : ∀ x ∈ f, x < 256) (r : Spec.FrameResult)
+    (hs : Spec.decodeFrame f sdicts = some r) (hlim : r.header.window ≤ d.maxWindow)
     (ops : List SOp) :
     ∃ d0 rest, d.reset f = (d0, .ok rest) ∧ (DocOk d0 rest ops →
       (runSched d0 rest ops).2.2.2 = none ∧
@@ -704,7 +710,7 @@ theorem valid_frame_any_schedule (d : Decoder) (f : List Nat) (hb : ∀ x ∈ f,
         r.content = (st.buf.hashed ++ st.buf.content ++ tail).toList ∧
         (st.finished = true → tail = #[] ∧ (runSched d0 rest ops).1.isFinished = true ∧
           (runSched d0 rest ops).2.1 = f.drop r.consumed ∧ st.bytesRead = r.consumed ∧ st.checksum = r.checksum)) := by
-  obtain ⟨d0, rest, hres, hh0, hinv⟩ := frameInv_of_decodeFrame d f hb r hs hlim
+  obtain ⟨d0, rest, hres, hh0, hinv⟩ := frameInv_of_decodeFrame d sdicts hdc f hb r hs hlim
   refine ⟨d0, rest, hres, fun hdoc => ?_⟩
   obtain ⟨h1, h2, h3⟩ := runSched_frameInv d0 rest ops hinv hdoc
   refine ⟨h1, ?_⟩
@@ -785,7 +791,7 @@ inductive FOp where
 
 /-- run a program over the full driver grammar, threading the source; result: decoder, source left,
 delivered bytes, first error -/
-def runFull (d : Decoder) (s : Src) : List FOp → Decoder × Src × Array Nat × Option DErr
+def runFull (d : Decoder σ) (s : Src) : List FOp → Decoder σ × Src × Array Nat × Option DErr
   | [] => (d, s, #[], none)
   | .sop o :: ops =>
     let r1 := runSched d s [o]
